@@ -169,8 +169,46 @@ def _hex_generator(repo):
     # everything but the start cell's components is compared structurally (local names, formatting and comments are free)
     import copy
     st2 = copy.deepcopy(st); st2[1].value.args = [ast.Constant(0), ast.Constant(0), ast.Constant(0)]
-    _same_shape(st2, 'results = []\nhex = Hex(0, 0, 0)\nfor i in range(6):\n    for j in range(radius):\n        results.append(hex)\n'
-                     '        hex = hex_neighbor(hex, i)\nreturn results', ['radius'], 'hex_ring')
+    # the LOOPS are translated statement by statement into folds over the state (results, hex): `for v in range(E)` becomes
+    # `(List.range E).foldl (fun st v => …) st`, `results.append(hex)` and `hex = hex_neighbor(hex, v)` become state updates in source order
+    if not (isinstance(st[0], ast.Assign) and ast.unparse(st[0]).replace(' ', '') == 'results=[]' and isinstance(st[3], ast.Return) and ast.unparse(st[3].value) == 'results'):
+        raise Refuse('hex_ring: accumulator / return changed')
+    hexvar = s0.targets[0].id
+    def fold(stmts, loopvars, depth):
+        ind = '  ' * (depth + 1); out = []
+        for x in stmts:
+            if isinstance(x, ast.For):
+                if not (isinstance(x.target, ast.Name) and isinstance(x.iter, ast.Call) and ast.unparse(x.iter.func) == 'range' and len(x.iter.args) == 1 and not x.orelse):
+                    raise Refuse('hex_ring: loop ' + ast.unparse(x).split('\n')[0])
+                b = x.iter.args[0]
+                if isinstance(b, ast.Constant) and isinstance(b.value, int) and b.value >= 0: bound = str(b.value)
+                elif isinstance(b, ast.Name) and b.id == 'radius': bound = 'radius'
+                else: raise Refuse('hex_ring: loop bound ' + ast.unparse(b))
+                v = x.target.id
+                out.append(f'{ind}let st := (List.range {bound}).foldl (fun st {v} =>\n' + fold(x.body, loopvars + [v], depth + 1) + f') st')
+            elif isinstance(x, ast.Expr) and isinstance(x.value, ast.Call) and ast.unparse(x.value.func) == 'results.append' and [ast.unparse(a) for a in x.value.args] == [hexvar]:
+                out.append(f'{ind}let st := (st.1 ++ [st.2], st.2)')
+            elif (isinstance(x, ast.Assign) and ast.unparse(x.targets[0]) == hexvar and isinstance(x.value, ast.Call) and ast.unparse(x.value.func) == 'hex_neighbor'
+                  and len(x.value.args) == 2 and ast.unparse(x.value.args[0]) == hexvar and ast.unparse(x.value.args[1]) in loopvars):
+                out.append(f'{ind}let st := (st.1, hexNeighbor st.2 {ast.unparse(x.value.args[1])})')
+            else: raise Refuse('hex_ring: statement ' + ast.unparse(x).split('\n')[0])
+        return '\n'.join(out) + f'\n{ind}st'
+    ring_fold = fold([st[2]], [], 0)
+    # hex_neighbor / hex_direction: call expressions translated
+    def callx(e, env):
+        if isinstance(e, ast.Name) and e.id in env: return env[e.id]
+        if isinstance(e, ast.Call) and not e.keywords:
+            f = ast.unparse(e.func)
+            if f == 'hex_add' and len(e.args) == 2: return f'(hexAdd {callx(e.args[0], env)} {callx(e.args[1], env)})'
+            if f == 'hex_direction' and len(e.args) == 1: return f'(hexDirection {callx(e.args[0], env)})'
+        if isinstance(e, ast.Subscript) and ast.unparse(e.value) == 'hex_directions': return f'(hexDirections.getD {callx(e.slice, env)} (0, 0, 0))'
+        raise Refuse('hex grid expression ' + ast.unparse(e))
+    def ret_of(name, params):
+        f = fns.get(name)
+        b = [x for x in f.body if not (isinstance(x, ast.Expr) and isinstance(x.value, ast.Constant))] if f else []
+        if len(b) != 1 or not isinstance(b[0], ast.Return) or [a.arg for a in f.args.args] != params: raise Refuse(name + ': shape changed')
+        return callx(b[0].value, {q: q for q in params})
+    dir_l = ret_of('hex_direction', ['direction']); nb_l = ret_of('hex_neighbor', ['hex', 'direction'])
     def lin(e):
         u = ast.unparse(e)
         if u == 'radius': return 'radius'
@@ -231,6 +269,13 @@ def _hex_generator(repo):
             f'def hexRingStart (radius : Int) : Int × Int × Int := ({start})\n\n'
             '/-- `segmented.hex_add` -/\n'
             'def hexAdd (a b : Int × Int × Int) : Int × Int × Int := (a.1 + b.1, a.2.1 + b.2.1, a.2.2 + b.2.2)\n\n'
+            '/-- `segmented.hex_direction` / `segmented.hex_neighbor` (list indexing outside 0..5 cannot occur: the ring loop runs i over range(6)) -/\n'
+            f'def hexDirection (direction : Nat) : Int × Int × Int := {dir_l}\n'
+            f'def hexNeighbor (hex : Int × Int × Int) (direction : Nat) : Int × Int × Int := {nb_l}\n\n'
+            '/-- `segmented.hex_ring(radius)`: the two nested loops TRANSLATED into folds over the state `(results, hex)` -/\n'
+            'def hexRing (radius : Nat) : List (Int × Int × Int) :=\n'
+            '  let st : List (Int × Int × Int) × (Int × Int × Int) := ([], hexRingStart (radius : Int))\n'
+            + ring_fold + '.1\n\n'
             '/-- `hex_segments`: `inner_radius` -/\n'
             f'def hexInner {KCLASSES} (sqrtN : Nat → K) (seg_radius : K) : K := {inner_l}\n\n'
             '/-- `hex_segments`: the argument of `np.ceil` in `size` -/\n'
@@ -243,7 +288,7 @@ def _hex_generator(repo):
             '/-- `hex_to_rc` -/\n'
             f'def hexToRC {KCLASSES} (sqrtN : Nat → K) (h : Int × Int × Int) (radius : K) (rotate : Bool) : K × K :=\n'
             f'  let xy := hexToXY sqrtN h radius rotate\n  {rc_l}\n')
-    return lean, ['hex_ring loop, hex_neighbor/hex_direction/hex_add bodies, the hex_segments numbering loop matched structurally (alpha-renamed AST); inner radius, array-size argument, grid pitch, hex_to_xy and hex_to_rc translated']
+    return lean, ['hex_ring loops, hex_neighbor and hex_direction TRANSLATED (Gen.hexRing folds, Gen.hexNeighbor); hex_add body and the hex_segments numbering loop matched structurally (alpha-renamed AST); inner radius, array-size argument, grid pitch, hex_to_xy and hex_to_rc translated']
 
 
 # ---------------------------------------------------------------------------------------------- helper.mesh
